@@ -4,6 +4,7 @@ import (
 	"bufio"
 	"bytes"
 	"context"
+	"encoding/binary"
 	"encoding/hex"
 	"errors"
 	"fmt"
@@ -25,8 +26,11 @@ import (
 	"github.com/attestantio/dirk/rules"
 	standardrules "github.com/attestantio/dirk/rules/standard"
 	"github.com/attestantio/dirk/services/checker"
+	"github.com/attestantio/dirk/services/fetcher"
+	"github.com/attestantio/dirk/services/ruler"
 	"github.com/attestantio/dirk/util/verifhook"
 	spec "github.com/attestantio/go-eth2-client/spec/phase0"
+	e2types "github.com/wealdtech/go-eth2-types/v2"
 	e2wtypes "github.com/wealdtech/go-eth2-wallet-types/v2"
 )
 
@@ -100,6 +104,9 @@ func installFaults(f *faultSpec, failRoots map[string]bool) func() {
 	if !f.any() {
 		return func() {}
 	}
+	if f.lockStateFail {
+		lockStateFail.Store(true)
+	}
 	var mu sync.Mutex
 	fetches := 0
 	shut := false
@@ -147,6 +154,7 @@ func installFaults(f *faultSpec, failRoots map[string]bool) func() {
 	})
 	return func() {
 		verifhook.SetHandler(baseHandler)
+		lockStateFail.Store(false)
 		if blockedFlag != nil {
 			atomic.StoreInt32(blockedFlag, 0)
 		}
@@ -386,6 +394,37 @@ func (w *world) execCtx(ctx context.Context, f []string) string {
 		_ = twin.Close(context.Background())
 		tcancel()
 		return out
+	case "rbatch":
+		// rbatch <n> <base> <source> <target> <roottag>: ONE attestation batch at the ruler (as the signer hands it over) for n
+		// synthetic validator keys base..base+n-1 — no accounts needed, so n can be far beyond what wallets allow; result: how
+		// many entries came back approved / denied / failed / other
+		n, _ := strconv.Atoi(f[1])
+		base, _ := strconv.Atoi(f[2])
+		root := bytes.Repeat([]byte{byte(0xA0 + u64(f[5]))}, 32)
+		data := make([]*ruler.RulesData, n)
+		for i := 0; i < n; i++ {
+			pk := make([]byte, 48)
+			pk[0] = 0xa0
+			binary.BigEndian.PutUint64(pk[40:], uint64(base+i))
+			data[i] = &ruler.RulesData{WalletName: "Synthetic", AccountName: fmt.Sprintf("v%d", base+i), PubKey: pk,
+				Data: &rules.SignBeaconAttestationData{Domain: append([]byte{1, 0, 0, 0}, make([]byte, 28)...), Slot: 1, CommitteeIndex: 1, BeaconBlockRoot: root,
+					Source: &rules.Checkpoint{Epoch: u64(f[3]), Root: root}, Target: &rules.Checkpoint{Epoch: u64(f[4]), Root: root}}}
+		}
+		res := w.ruler.RunRules(ctx, creds("client1", ""), ruler.ActionSignBeaconAttestation, data)
+		var a, d, fl, o int
+		for _, r := range res {
+			switch r {
+			case rules.APPROVED:
+				a++
+			case rules.DENIED:
+				d++
+			case rules.FAILED:
+				fl++
+			default:
+				o++
+			}
+		}
+		return fmt.Sprintf("n=%d A=%d D=%d F=%d O=%d", len(res), a, d, fl, o)
 	case "pause":
 		ms, _ := strconv.Atoi(f[1])
 		time.Sleep(time.Duration(ms) * time.Millisecond)
@@ -615,4 +654,51 @@ func (w *world) fetchForTwin(ctx context.Context, a addr) (e2wtypes.Wallet, e2wt
 		return w.fetcher.FetchAccountByKey(ctx, a.key)
 	}
 	return w.fetcher.FetchAccount(ctx, a.name)
+}
+
+// lockStateFail: while set, accounts handed out by the fetcher answer IsUnlocked with an error.
+var lockStateFail atomic.Bool
+
+// flakyFetcher hands out the real accounts, wrapped (only while lockStateFail is set) so that their lock state cannot be
+// determined; everything else is forwarded.
+type flakyFetcher struct{ fetcher.Service }
+
+func (f *flakyFetcher) FetchAccount(ctx context.Context, path string) (e2wtypes.Wallet, e2wtypes.Account, error) {
+	w, a, err := f.Service.FetchAccount(ctx, path)
+	return w, wrapFlaky(a), err
+}
+
+func (f *flakyFetcher) FetchAccountByKey(ctx context.Context, pubKey []byte) (e2wtypes.Wallet, e2wtypes.Account, error) {
+	w, a, err := f.Service.FetchAccountByKey(ctx, pubKey)
+	return w, wrapFlaky(a), err
+}
+
+type flakyAccount struct {
+	e2wtypes.Account
+	l  e2wtypes.AccountLocker
+	s  e2wtypes.AccountSigner
+	wp e2wtypes.AccountWalletProvider
+}
+
+func wrapFlaky(a e2wtypes.Account) e2wtypes.Account {
+	if a == nil || !lockStateFail.Load() {
+		return a
+	}
+	l, ok1 := a.(e2wtypes.AccountLocker)
+	s, ok2 := a.(e2wtypes.AccountSigner)
+	wp, ok3 := a.(e2wtypes.AccountWalletProvider)
+	if !(ok1 && ok2 && ok3) {
+		return a
+	}
+	return &flakyAccount{Account: a, l: l, s: s, wp: wp}
+}
+
+func (a *flakyAccount) IsUnlocked(context.Context) (bool, error) {
+	return false, errors.New("injected: lock state cannot be determined")
+}
+func (a *flakyAccount) Lock(ctx context.Context) error                { return a.l.Lock(ctx) }
+func (a *flakyAccount) Unlock(ctx context.Context, p []byte) error    { return a.l.Unlock(ctx, p) }
+func (a *flakyAccount) Wallet() e2wtypes.Wallet                       { return a.wp.Wallet() }
+func (a *flakyAccount) Sign(ctx context.Context, d []byte) (e2types.Signature, error) {
+	return a.s.Sign(ctx, d)
 }
